@@ -358,6 +358,12 @@ impl NNum {
 
     pub fn pow_num(&self, other: &NNum) -> NNum {
         match (self, other) {
+            // 0 ^ (negative integer) is 1 / 0: fall back to float infinity like `/` does
+            (NNum::Int(_) | NNum::Rational(_), NNum::Int(b))
+                if !self.is_nonzero() && b.is_negative() =>
+            {
+                NNum::Float(f64::INFINITY)
+            }
             (NNum::Int(a), NNum::Int(b)) => pow_big_ints(a, b),
             (NNum::Int(a), NNum::Rational(b)) => {
                 powf_pdnum(nint_to_f64_or_inf(a), rational_to_f64_or_inf(b))
